@@ -10,7 +10,7 @@ N=64; [ "${1:-}" = "--quick" ] && N=16
 export GOFLAGS=-mod=mod GOPROXY=off GOSUMDB=off GOTOOLCHAIN=local PATH=/opt/veriftools/go1.26.8/bin:$PATH
 "$VERIF/build.sh" "$SCR" > /dev/null || { rm -rf "$SCR"; exit 2; }
 rc=0
-for p in C01 C19 C02 C05 C08 C09 C14 C15 C16 C17 C18; do
+for p in C01 C02 C03 C04 C05 C06 C07 C08 C09 C10 C11 C12 C13 C14 C15 C16 C17 C18 C19 C20; do
   ref="$SCR/det-$p-ref.txt"
   GOMAXPROCS=4 "$SCR/simworker" -prop $p -seed 4242 -det $N > "$ref" || { echo "selftest: worker failed for $p"; rc=1; continue; }
   GOMAXPROCS=1 "$SCR/simworker" -prop $p -seed 4242 -det $N > "$SCR/det-$p-1.txt"
@@ -27,7 +27,7 @@ for p in C02 C14; do
     # seed i of the batch is Mix(4242,i); DetRun with n=1 and base chosen so that index 0 maps to it is not
     # expressible; instead run prefixes of different length and compare the common lines
     GOMAXPROCS=$((1 + i % 3 * 7)) "$SCR/simworker" -prop $p -seed 4242 -det $((i + 1)) > "$SCR/pre.txt"
-    if ! grep -qFf "$SCR/pre.txt" "$SCR/det-$p-ref.txt" || [ "$(grep -cFf "$SCR/pre.txt" "$SCR/det-$p-ref.txt")" != "$((i + 1))" ]; then bad=1; fi
+    if ! grep -qFf "$SCR/pre.txt" "$SCR/det-$p-ref.txt" || [ "$(grep -cFf "$SCR/pre.txt" "$SCR/det-$p-ref.txt")" != "$(wc -l < "$SCR/pre.txt")" ] || [ "$(wc -l < "$SCR/pre.txt")" -lt "$((i + 1))" ]; then bad=1; fi
   done
   [ $bad = 0 ] && echo "selftest: batch-position independence $p: ok (10 fresh processes)" || { echo "selftest: batch-position dependence in $p"; rc=1; }
 done
